@@ -779,8 +779,16 @@ class ExprMixin:
         for x in known:
             yield x
         n = 0
+        src = it.args[0] if isinstance(it, Term) and it.op in ("enumerate", "items", "keys", "values") and it.args else it
+        emp = self.known_fact(f"eq(0, len({src.key()}))") if not known else None
+        if emp is True:
+            self.emit("loop", node, iterable=it, iterations=0, bounded=False)
+            return
         while n < self.unroll:
-            c = self.ch.choose(2, f"iter:{it.key()}:{n}")
+            if n == 0 and emp is False:
+                c = 1          # a length test on this path already established that the iterable is not empty
+            else:
+                c = self.ch.choose(2, f"iter:{it.key()}:{n}")
             if c == 0:
                 break
             yield self._nth_element(it, n)
